@@ -16,7 +16,7 @@ from oracles import ref
 
 LEVEL = "exploration"
 RULE = ("product of population alphabet (N=2..4, log-weight vectors incl. ties, -inf, 1e3 spreads) x temperature pairs"
-        " x requested size x namespace x dtype; for each, every index tuple the generator can return is executed"
+        " x requested size x namespace x dtype x {fresh object, object whose diagnostics were evaluated and whose log-likelihood was then re-assigned in place}; for each, every index tuple the generator can return is executed"
         " (explorer over ChoiceRNG.choice).  non-trivial = incremental weights not all equal; distinct = distinct"
         " (population, betas, size, ns, dtype, tuple)")
 ASSUMPTIONS = [
@@ -52,15 +52,23 @@ def build(a, ns, dt, beta):
 
 
 def run_config(cfg):
-    a, (b0, b1), size, ns, dt = cfg
+    a, (b0, b1), size, ns, dt = cfg[:5]
+    variant = cfg[5] if len(cfg) > 5 else "fresh"
     a = tuple(float(v) for v in a)
     r = Report()
-    case = {"a": a, "betas": (b0, b1), "size": size, "ns": ns, "dtype": dt}
+    case = {"a": a, "betas": (b0, b1), "size": size, "ns": ns, "dtype": dt, "variant": variant}
     n = len(a)
     tol = 1e-13 if dt == "float64" else 2e-6
 
     def body(ctx):
         s = build(a, ns, dt, b0)
+        if variant == "reassigned":
+            # non-initial state: diagnostics were evaluated for this temperature move and a per-particle
+            # field was then re-assigned on the same object (the samplers re-assign fields in place)
+            if b1 != b0:
+                s.log_weights(b1)
+                s.log_evidence_ratio(b1)
+            s.log_likelihood = s.log_likelihood + s.array_to_namespace(np.linspace(0.0, 1.5, len(a)))
         rng = ChoiceRNG(ctx, weighted=False)
         out = s.resample(b1, n_samples=size, rng=rng)
         return s, out, rng
@@ -142,6 +150,8 @@ def configs(tier):
                     if tier == "quick" and ns == "jax" and dt == "float32" and n == 3:
                         continue
                     out.append((a, b, size, ns, dt))
+                    if size in (None, 2) and all(math.isfinite(v) for v in a) and (ns == "numpy" or dt == "float64"):
+                        out.append((a, b, size, ns, dt, "reassigned"))
     return out
 
 
@@ -156,7 +166,7 @@ def run(tier, seed, workers):
 
 def replay(case):
     r = Report()
-    cfg = (case["a"], tuple(case["betas"]), case["size"], case["ns"], case["dtype"])
+    cfg = (case["a"], tuple(case["betas"]), case["size"], case["ns"], case["dtype"], case.get("variant", "fresh"))
     cfg = (tuple(-math.inf if v == "-inf" else v for v in cfg[0]),) + cfg[1:]
     r.merge(run_config(cfg))
     return r
